@@ -274,6 +274,80 @@ def run_history(ctx: Ctx, kind, scratch, ops, limit, dead_min, queries, tag):
         s.flush()
 
 
+def loop_liveness(kind: str, scratch: str, dead_min: float = 0.2, gate_min: float = 0.5, loop_s: float = 1.0, iterations: int = 75) -> dict:
+    """The REAL BaseRunner.run loop (a minimal concrete runner whose only child is alive and RUNNING an invocation) in virtual
+    time: at every iteration the running-recovery scan must not select the live child's invocation, although the death
+    time-out (12 s) is shorter than the atomic-service gate (30 s) — it is longer than the loop period (1 s)."""
+    import pynenc.runner.base_runner as br
+    from pynenc.invocation.status import InvocationStatus as St
+    from harness import tasks_basic
+    clock = VirtualClock()
+    with clock:
+        app = world.make_app(kind, scratch, runner_considered_dead_after_minutes=dead_min, atomic_service_check_interval_minutes=gate_min)
+        task = tasks_basic.bind(app, tasks_basic.add_one)
+        child = world.runner_ctx("child-1")
+        inv = task(1)
+        got = list(app.orchestrator.get_invocations_to_run(1, child))
+        assert [g.invocation_id for g in got] == [inv.invocation_id]
+        app.orchestrator.set_invocation_status(inv.invocation_id, St.RUNNING, child)
+        seen: list = []
+
+        class LoopRunner(br.BaseRunner):
+            @staticmethod
+            def mem_compatible() -> bool:
+                return True
+
+            @property
+            def max_parallel_slots(self) -> int:
+                return 1
+
+            def _on_start(self):
+                self._register_new_child_runner_context(child)
+                self.n = 0
+
+            def _on_stop(self):
+                pass
+
+            def _on_stop_runner_loop(self):
+                pass
+
+            def _waiting_for_results(self, *a, **k):
+                pass
+
+            def get_active_child_runner_ids(self):
+                return ["child-1"]
+
+            def runner_loop_iteration(self):
+                self.n += 1
+                sel = [str(x) for x in self.app.orchestrator.get_running_invocations_for_recovery()]
+                if inv.invocation_id in sel:
+                    seen.append((self.n, round(clock.now - t0, 3)))
+                if self.n >= iterations:
+                    self.running = False
+
+        class T:
+            @staticmethod
+            def time():
+                return clock.now
+
+            @staticmethod
+            def sleep(x):
+                clock.advance(max(float(x), loop_s))
+        real_time = br.time
+        br.time = T
+        t0 = clock.now
+        exc = None
+        try:
+            r = LoopRunner(app)
+            r.run()
+        except BaseException as ex:  # noqa: BLE001
+            exc = repr(ex)
+        finally:
+            br.time = real_time
+        return {"backend": kind, "iterations": iterations, "dead_after_s": dead_min * 60, "gate_s": gate_min * 60, "loop_s": loop_s,
+                "live_child_selected_at": seen[:5], "exc": exc}
+
+
 def main(ctx: Ctx) -> int:
     world.quiet()
     info = ctx.translate("recovery_facts", recovery_facts.translate, "gen/RecoveryFacts_gen.v")
@@ -294,6 +368,16 @@ def main(ctx: Ctx) -> int:
                 run_history(ctx, kind, scratch, ops, limit, dead_min, queries, h)
             if h < 2:
                 ctx.sample({"limit_s": limit, "dead_after_min": dead_min, "ops": ops[:14]})
+        # the parent's real main loop keeps its live children's evidence of life fresh
+        for kind in ("mem", "sqlite"):
+            out = loop_liveness(kind, scratch)
+            ctx.notes.setdefault("loop_liveness", {})[kind] = out
+            if out["live_child_selected_at"] or out["exc"]:
+                ctx.violation("loop:live-child-selected",
+                              f"{kind}: real BaseRunner.run loop, live child RUNNING an invocation, death time-out {out['dead_after_s']} s > loop period "
+                              f"{out['loop_s']} s: the running-recovery scan selected the live child's invocation at (iteration, seconds) "
+                              f"{out['live_child_selected_at']} (exception {out['exc']})",
+                              {"kind": "loop-liveness", "backend": kind, "observed": out})
     finally:
         world.rm_scratch(scratch)
     scans = [q for q in queries if q[2]["op"].startswith("scan")]
@@ -333,6 +417,9 @@ def replay(ctx: Ctx, path: str) -> int:
     rp = json.load(open(path))["replay"]
     scratch = world.scratch_dir()
     try:
+        if rp.get("kind") == "loop-liveness":
+            print(json.dumps(loop_liveness(rp["backend"], scratch), indent=1, default=str))
+            return 0
         q: list = []
         ops = [tuple(o) for o in rp["ops"]]
         run_history(ctx, rp["backend"], scratch, ops, rp["limit"], rp["dead_min"], q, "replay")
